@@ -105,26 +105,26 @@ Section WithHolder.
 Variable h : addr.
 
 Lemma accept_pays_out s to froms perm k r :
-  good s -> covers h s -> to <> h ->
+  good s -> covers h s -> to <> h -> inj_named froms ->
   rget k (s_recs s) = Some r -> fst k = to -> incl (q_unacc r) froms ->
   exists s' rel, accept h s to froms perm = Some (s', rel) /\ rget k (s_recs s') = None /\
                  (forall d, amt (q_coins r) d <= amt rel d).
 Proof.
-  intros (Hw & Hi & Hn) Hc Hth Hg Hto Hincl.
+  intros (Hw & Hi & Hn) Hc Hth Hinj Hg Hto Hincl.
   pose proof (wf_rget _ _ _ Hw Hg) as [_ Hun]. cbn [snd] in Hun.
   destruct (q_unacc r) as [|f ul] eqn:Eu; [contradiction|].
   assert (Hf : In f froms) by (apply Hincl; left; reflexivity).
   assert (Hfa : In f (all_froms r)) by (unfold all_froms; rewrite Eu; left; reflexivity).
   assert (Hin : In (k, r) (get_records s to froms)).
   { rewrite <- Hto. apply (get_records_complete _ _ _ _ _ Hw Hi Hg Hfa Hf). }
-  destruct (get_records_spec s to froms) as [Hnd Hrs].
+  destruct (get_records_spec s to froms Hinj) as [Hnd Hrs].
   destruct (accept_fold_total h to froms Hth _ s [] Hnd Hw Hn Hc Hrs) as (s1 & rel1 & Ef).
   assert (Hacc : exists s' rel, accept h s to froms perm = Some (s', rel)).
   { unfold accept. destruct froms as [|f0 fr] eqn:Efr; [destruct Hf|]. eexists. eexists.
     match goal with |- match ?X with _ => _ end = _ => replace X with (Some (s1, rel1)) by (symmetry; exact Ef) end.
     reflexivity. }
   destruct Hacc as (s' & rel & Hacc). exists s', rel. split; [exact Hacc|].
-  destruct (accept_sharp h _ _ _ _ _ _ Hw Hacc) as (_ & _ & _ & _ & _ & Hk & Hrel).
+  destruct (accept_sharp h _ _ _ _ _ _ Hw Hinj Hacc) as (_ & _ & _ & _ & _ & Hk & Hrel).
   assert (Hne : q_unacc r <> []) by (rewrite Eu; discriminate).
   assert (Hincl' : incl (q_unacc r) froms) by (rewrite Eu; exact Hincl).
   destruct (acc_res_all s to froms r Hne Hincl') as [Hres Hpaid].
@@ -162,15 +162,15 @@ Proof.
 Qed.
 
 Lemma decline_revokes s to froms perm k r f :
-  good s -> rget k (s_recs s) = Some r -> fst k = to -> In f (all_froms r) -> In f froms ->
+  good s -> inj_named froms -> rget k (s_recs s) = Some r -> fst k = to -> In f (all_froms r) -> In f froms ->
   exists s', decline s to froms perm = Some s' /\
   (forall a d, s_bal s' a d = s_bal s a d) /\
   exists r', rget k (s_recs s') = Some r' /\ In f (q_unacc r') /\ incl (q_unacc r) (q_unacc r') /\
              q_coins r' = q_coins r /\ q_declined r' = true.
 Proof.
-  intros (Hw & Hi & Hn) Hg Hto Hf Hfr.
+  intros (Hw & Hi & Hn) Hinj Hg Hto Hf Hfr.
   assert (Hne : froms <> []) by (intros ->; destruct Hfr).
-  destruct (decline_sharp s to froms perm Hw Hne) as (s' & Hd & _ & Hb & _ & _ & _ & _ & Hk).
+  destruct (decline_sharp s to froms perm Hw Hinj Hne) as (s' & Hd & _ & Hb & _ & _ & _ & _ & Hk).
   exists s'. split; [exact Hd|]. split; [intros a d; rewrite Hb; reflexivity|].
   assert (Hin : In (k, r) (get_records s to froms)).
   { rewrite <- Hto. apply (get_records_complete _ _ _ _ _ Hw Hi Hg Hf Hfr). }
@@ -218,7 +218,7 @@ Proof.
     - split.
       + apply (key_of_record s (mk_key to froms) r0 _ to Hw Eg eq_refl). reflexivity.
       + intros r1 [= <-]. split; reflexivity.
-    - split; [|discriminate]. unfold mk_key. f_equal. apply perm_sort_eq. unfold all_froms. cbn [q_unacc q_acc].
+    - split; [|discriminate]. unfold mk_key. f_equal. apply perm_sfx_eq. unfold all_froms. cbn [q_unacc q_acc].
       eapply perm_trans; [apply Permutation_app_comm|].
       apply (partition_perm (fun f => is_auto_accept s to [f]) froms). }
   destruct Hkey as [Hk Hl]. rewrite Hk in Hr.
@@ -275,9 +275,9 @@ Proof.
 Qed.
 
 Lemma step_keeps s o s' res k f :
-  good s -> ~ accepts_sender (fst k) f o -> step h s o = (s', res) -> keeps k f s s'.
+  good s -> named_ok o -> ~ accepts_sender (fst k) f o -> step h s o = (s', res) -> keeps k f s s'.
 Proof.
-  intros Hg Hna Hst. destruct res as [rel|]; [|apply step_none in Hst; subst; apply keeps_refl].
+  intros Hg Hno Hna Hst. destruct res as [rel|]; [|apply step_none in Hst; subst; apply keeps_refl].
   destruct Hg as (Hw & Hi & Hn).
   destruct o as [a|a|from to c|from inc outs|ins to|to froms perm|to froms perm|to ups]; cbn [step] in Hst.
   - injection Hst as <- _. apply keeps_same_recs. unfold opt_in. destruct (is_optin s a); reflexivity.
@@ -304,8 +304,8 @@ Proof.
     assert (Hw0 : wf s0) by (unfold wf; rewrite Hr0; exact Hw).
     eapply keeps_trans; [apply keeps_same_recs, Hr0 | apply (credits_keep _ k f _ _ Hw0 Hnn E)].
   - destruct (accept h s to froms perm) as [[s1 rel1]|] eqn:E; [|discriminate]. injection Hst as <- _.
-    destruct (accept_sharp h _ _ _ _ _ _ Hw E) as (_ & _ & _ & _ & Hfr & Hk & _).
-    destruct (get_records_spec s to froms) as [_ Hrs].
+    destruct (accept_sharp h _ _ _ _ _ _ Hw Hno E) as (_ & _ & _ & _ & Hfr & Hk & _).
+    pose proof (get_records_mem s to froms) as Hrs.
     intros r Hg Hf.
     destruct (rkey_in_dec k (map fst (get_records s to froms))) as [Hin|Hnin].
     + apply in_map_iff in Hin. destruct Hin as ([k' r'] & Ek & Hin). cbn [fst] in Ek. subst k'.
@@ -324,9 +324,9 @@ Proof.
     + exists r. rewrite (Hfr k Hnin). split; [exact Hg|]. split; [exact Hf|]. intros d. lia.
   - unfold lift in Hst. destruct froms as [|f0 fr] eqn:Ef; [cbn [decline] in Hst; discriminate|]. rewrite <- Ef in *.
     assert (Hne : froms <> []) by (rewrite Ef; discriminate).
-    destruct (decline_sharp s to froms perm Hw Hne) as (s1 & Hd & _ & _ & _ & _ & _ & Hfr & Hk).
+    destruct (decline_sharp s to froms perm Hw Hno Hne) as (s1 & Hd & _ & _ & _ & _ & _ & Hfr & Hk).
     rewrite Hd in Hst. injection Hst as <- _.
-    destruct (get_records_spec s to froms) as [_ Hrs].
+    pose proof (get_records_mem s to froms) as Hrs.
     intros r Hg Hf.
     destruct (rkey_in_dec k (map fst (get_records s to froms))) as [Hin|Hnin].
     + apply in_map_iff in Hin. destruct Hin as ([k' r'] & Ek & Hin). cbn [fst] in Ek. subst k'.
@@ -342,13 +342,13 @@ Proof.
 Qed.
 
 Lemma run_keeps ops k f : forall s,
-  good s -> Forall (fun o => ~ accepts_sender (fst k) f o) ops -> keeps k f s (run h s ops).
+  good s -> Forall named_ok ops -> Forall (fun o => ~ accepts_sender (fst k) f o) ops -> keeps k f s (run h s ops).
 Proof.
-  induction ops as [|o ops IH]; intros s Hg Hna; cbn [run fold_left]; [apply keeps_refl|].
-  inversion Hna as [|? ? H1 H2]; subst.
+  induction ops as [|o ops IH]; intros s Hg Hno Hna; cbn [run fold_left]; [apply keeps_refl|].
+  inversion Hna as [|? ? H1 H2]; subst. inversion Hno as [|? ? N1 N2]; subst.
   destruct (step h s o) as [s1 res] eqn:E. cbn [fst]. fold (run h s1 ops).
-  destruct (step_good h _ _ _ _ Hg E) as [Hg1 _].
-  eapply keeps_trans; [apply (step_keeps _ _ _ _ _ _ Hg H1 E) | apply (IH s1 Hg1 H2)].
+  destruct (step_good h _ _ _ _ Hg N1 E) as [Hg1 _].
+  eapply keeps_trans; [apply (step_keeps _ _ _ _ _ _ Hg N1 H1 E) | apply (IH s1 Hg1 N2 H2)].
 Qed.
 
 End WithHolder.
